@@ -1,8 +1,7 @@
 import PsiProofs.Helper.C06_Run
 /-!
 Helper for C06 (composition): histories without `pause(m)`.  Nothing is ever cancelled, every
-notified trial stays logged, its whole inter-trial gap is silence on the timeline, and the start
-positions increase strictly — so the dictionary keys `(t0, key)` are distinct by themselves.
+notified trial stays logged, and its whole inter-trial gap is silence on the timeline.
 Also: locating a request in the extractor's history and reading an epoch off the timeline.
 -/
 namespace Psi.E2E
@@ -157,25 +156,13 @@ theorem NP_step (c : Cfg) {J J' : JState} (ev : Ev) (inv : JInv c J) (np : NPInv
         · simp only [Except.ok.injEq] at h; subst h
           exact np
 
-/-- strictly increasing starts give distinct dictionary keys -/
-theorem KeysOK_of_sorted (c : Cfg) (added : List Info)
-    (henc : ∀ a b a' b', c.enc a b = c.enc a' b' → a = a' ∧ b = b')
-    (hs : added.Pairwise (fun a b => a.k < b.k)) : KeysOK c added := by
-  unfold KeysOK List.Nodup
-  rw [List.pairwise_map, List.pairwise_map]
-  refine hs.imp ?_
-  intro a b hlt he
-  have := (henc _ _ _ _ he).1
-  omega
-
 theorem NPInv_init (c : Cfg) (q0 : QState) (h : Start q0) :
     NPInv c.K0 (JState.init c q0).q (JState.init c q0).tl := by
   refine ⟨h.removed, by simp [JState.init, h.generated, h.added], ?_, ?_⟩
   · intro i hi; simp [JState.init, h.generated] at hi
   · intro i hi; simp [JState.init, h.generated] at hi
 
-theorem JNP_run (c : Cfg) (evs : List Ev) {J J' : JState}
-    (henc : ∀ a b a' b', c.enc a b = c.enc a' b' → a = a' ∧ b = b')
+theorem JNP_run (c : Cfg) (evs : List Ev) {J J' : JState} (henc : EncInj c)
     (inv : JInv c J) (np : NPInv c.K0 J.q J.tl) (hnp : ∀ ev ∈ evs, isPause ev = false)
     (h : jrun c evs J = .ok J') : JInv c J' ∧ NPInv c.K0 J'.q J'.tl := by
   induction evs generalizing J with
@@ -186,43 +173,61 @@ theorem JNP_run (c : Cfg) (evs : List Ev) {J J' : JState}
     · cases h
     · rename_i J1 hs
       have hev := hnp ev List.mem_cons_self
-      have hk : KeysOK c J.q.added := KeysOK_of_sorted c _ henc (np.all ▸ inv.q.sorted)
-      have inv1 : JInv c J1 := JInv_step c ev inv hs (fun hp => by rw [hev] at hp; cases hp) hk
+      have inv1 : JInv c J1 := JInv_step c henc ev inv hs (fun hp => by rw [hev] at hp; cases hp)
       exact ih inv1 (NP_step c ev inv np hev hs) (fun e he => hnp e (List.mem_cons_of_mem _ he)) h
 
 /-! ### locating a request, reading an epoch off the timeline -/
 
-theorem KeysOK_inj {c : Cfg} {added : List Info} (hk : KeysOK c added) {a b : Info} (ha : a ∈ added)
-    (hb : b ∈ added) (he : (reqOf c a).key = (reqOf c b).key) : a = b := by
-  have h2 := (nodup_of_map _ _ hk).2 (reqOf c a) (List.mem_map.2 ⟨a, ha, rfl⟩) (reqOf c b)
-    (List.mem_map.2 ⟨b, hb, rfl⟩) he
-  exact (nodup_of_map _ _ (nodup_of_map _ _ hk).1).2 a ha b hb h2
-
-/-- a notified trial whose `added` notification is no longer pending became visible in some call;
-its start sample is not negative, and if the stream has reached its last sample the calls from
-there on contain it -/
-theorem locate (c : Cfg) {J : JState} (inv : JInv c J) (hk : KeysOK c J.q.added) (i : Info)
+/-- a notified trial whose `added` notification is no longer pending has been handed to the
+extractor: its request is in the history, its start sample is not negative -/
+theorem locate (c : Cfg) {J : JState} (inv : JInv c J) {seen : List Note} (g : GInv c J seen) (i : Info)
     (hia : i ∈ J.q.added) (hseen : Note.add i ∉ J.pend) :
-    ∃ pre opj rest, J.eops = pre ++ opj :: rest ∧ reqOf c i ∈ opj.reqs ∧ 0 ≤ (reqOf c i).s := by
-  have hmem : reqOf c i ∈ allReqs J.eops ++ J.pend.filterMap (Note.req? c) := by
-    rw [inv.n.reqs]; exact List.mem_map.2 ⟨i, hia, rfl⟩
-  rcases List.mem_append.1 hmem with h1 | h1
-  · obtain ⟨pre, opj, rest, heq, hr⟩ := ReqSeen_of_mem h1
-    refine ⟨pre, opj, rest, heq, hr, ?_⟩
-    have hv := inv.n.valid
-    rw [heq] at hv
-    have h2 := ((allValid_append c.B c.L [] pre (opj :: rest)).1 hv).2
-    simp only [AllValid] at h2
-    have := h2.1.visible _ hr
-    omega
-  · obtain ⟨nt, hnt, he⟩ := List.mem_filterMap.1 h1
-    cases nt with
-    | rem r => simp [Note.req?] at he
-    | add i' =>
-      simp only [Note.req?, Option.some.injEq] at he
-      have : i' = i := KeysOK_inj hk (inv.n.addsPend i' hnt) hia (by rw [he])
-      subst this
-      exact absurd hnt hseen
+    Note.add i ∈ seen ∧ reqOf c i ∈ allReqs J.eops ∧ 0 ≤ (reqOf c i).s := by
+  have h1 : Note.add i ∈ seen := by
+    have : Note.add i ∈ seen ++ J.pend := mem_add?.1 (by rw [g.adds]; exact hia)
+    rcases List.mem_append.1 this with h | h
+    · exact h
+    · exact absurd h hseen
+  have h2 : reqOf c i ∈ allReqs J.eops := by
+    rw [g.seenReqs]; exact List.mem_filterMap.2 ⟨Note.add i, h1, rfl⟩
+  refine ⟨h1, h2, ?_⟩
+  obtain ⟨o0, ho, hr⟩ := List.mem_flatMap.1 h2
+  obtain ⟨pre, rest, heq⟩ := List.append_of_mem ho
+  have hv := inv.n.valid
+  rw [heq] at hv
+  have h3 := ((allValidSeq_append c.B c.L [] pre (o0 :: rest)).1 hv).2
+  simp only [AllValidSeq] at h3
+  have := h3.1.visible _ hr
+  omega
+
+/-- **a kept trial is delivered exactly once under its key**: still logged, its notification handed
+over, its epoch reached ⇒ it is the outstanding trial of its key, every earlier trial with that key
+was cancelled in time, and the one epoch under the key is `stream[s, s+L)` of its own request -/
+theorem kept_delivered (c : Cfg) {J : JState} (inv : JInv c J) (i : Info) (hi : i ∈ J.q.generated)
+    (hseen : Note.add i ∉ J.pend)
+    (hreached : (c.K0 : Int) + i.k - (c.P : Int) + (c.L : Int) ≤ (J.acq : Int)) :
+    (deliveries c.B J.eops (reqOf c i).key).flatten = [epochOf (streamOf J.eops) (reqOf c i)] ∧
+      (reqOf c i).s.toNat + (reqOf c i).len ≤ J.acq := by
+  obtain ⟨seen, g⟩ := inv.g
+  have hia := inv.q.emb.gensub i hi
+  obtain ⟨h1, _, hs0⟩ := locate c inv g i hia hseen
+  have hsv : (reqOf c i).s = (c.K0 : Int) + i.k - (c.P : Int) := rfl
+  have hlv : (reqOf c i).len = c.L := rfl
+  have hacq : (reqOf c i).s.toNat + (reqOf c i).len ≤ J.acq := by rw [hlv]; omega
+  have hnorem : Note.rem i ∉ seen ++ J.pend := by
+    intro h
+    exact (Once_nodup inv.q.once).2.2.1 _ (g.rems i h) (List.mem_map.2 ⟨i, hi, rfl⟩)
+  have halt : AltM none (onKey c (reqOf c i).key seen) := by
+    have := g.alt (reqOf c i).key
+    rw [onKey_append, AltM_append] at this
+    exact this.1
+  have hout : altEnd none (onKey c (reqOf c i).key seen) = some i := by
+    rcases AltM_add_mem halt (mem_onKey.2 ⟨h1, rfl⟩) with h | h
+    · exact absurd (List.mem_append_left _ (mem_onKey.1 h).1) hnorem
+    · exact h
+  have hd : doneAt (reqOf c i) J.acq = true := by simpa [doneAt] using hacq
+  rw [deliveries_key c inv g, hout]
+  simp [Option.filter, hd, hacq]
 
 theorem slice_getElem? {α} (S : List α) (a n x : Nat) (hx : x < n) : (slice S a n)[x]? = S[a + x]? := by
   simp only [slice]
